@@ -581,7 +581,24 @@ def W4():
     return w
 
 
-FAMILIES = {"W0": W0, "W1": W1, "W2": W2, "W3": W3, "W4": W4}
+def W16():
+    """W1 + a second, independent system (sysB) in the same universe: for link-consistency exploration."""
+    w = W1()
+    w["name"] = "W16"
+    _std_storage(w, "st_x")
+    add(w, "sv_x", "Server", storage=link("st_x"))
+    add(w, "j_x", "Job", server=link("sv_x"))
+    add(w, "s_x", "UsageJourneyStep", user_time_spent=Q(10, "minute"), jobs=lst("j_x"))
+    add(w, "uj_x", "UsageJourney", uj_steps=lst("s_x"))
+    add(w, "nw_x", "Network")
+    _country(w, "c_x", "CX", 200, "Europe/Paris")
+    add(w, "d_x", "Device")
+    _up(w, "up_x", "uj_x", "nw_x", "c_x", ["d_x"], [1, 1, 2], "2025-01-01 00:00")
+    w["objects"]["sysB"] = {"cls": "System", "attrs": {"usage_patterns": lst("up_x")}}
+    return w
+
+
+FAMILIES = {"W0": W0, "W1": W1, "W2": W2, "W3": W3, "W4": W4, "W16": W16}
 
 
 def family(name):
